@@ -1053,6 +1053,9 @@ func contains(xs []int, x int) bool {
 }
 
 func exec(c px.Context, op string, steps []sx.Sexp) core.Result {
+	if op == "res" {
+		return execRes(c, steps)
+	}
 	if op != "hist" {
 		return core.Result{Out: "bad-op", Pred: "FAIL harness-bad-op " + op}
 	}
@@ -1509,4 +1512,6 @@ func gen(g *core.G) {
 		hs = append(hs, st("add", n(len(hs)+3), iv(1)), st("slice", n(0), n(2), n(9)), st("merge", n(0), n(1)), st("keys", n(0)))
 		g.Emit("hist " + joinSteps(hs))
 	}
+	// the resolving operations (resolve.go)
+	genRes(g)
 }
